@@ -57,6 +57,67 @@ def _samples() -> list[str]:
     return out
 
 
+def _bygroups_args(action: Any) -> Any:
+    """the token types of a pygments `bygroups(...)` callback, or None if `action` is something else"""
+    if getattr(action, "__qualname__", "").startswith("bygroups.") and getattr(action, "__closure__", None):
+        for c in action.__closure__:
+            if isinstance(c.cell_contents, tuple):
+                return c.cell_contents
+    return None
+
+
+def _bygroups_exact(pat: Any, args: tuple, st: str, tokens: Any, check: Any, x: Any) -> tuple[str, Any]:
+    """'exact' when groups 1..n tile every match; 'loses' with a witness text (decided by z3); 'unknown' otherwise"""
+    import sre_constants as sc
+    import sre_parse
+    from pygments.token import _TokenType
+
+    tree = sre_parse.parse(pat.pattern, pat.flags)
+    t = R._T(pat.flags | tree.state.flags)
+    items = list(tree)
+    gids = [av[0] for op, av in items if op is sc.SUBPATTERN and av[0] is not None]
+    if gids != list(range(1, len(args) + 1)):
+        return "unknown", f"top-level groups {gids} do not match the {len(args)} bygroups arguments (nested or missing groups)"
+    if tree.state.groups - 1 != len(args):
+        return "unknown", "capturing groups nested inside groups (text would be emitted twice)"
+    try:
+        rxs = [t.node(op, av) for op, av in items]
+    except R.Unsupported as e:
+        return "unknown", f"untranslatable: {e}"
+    # earlier rules of the state win over this one: the witness must not start with a match of any of them
+    earlier = []
+    for (m2, _a2, _n2) in tokens[st]:
+        if m2.__self__ is pat:
+            break
+        try:
+            tr = R.translate(m2.__self__.pattern, m2.__self__.flags)
+            if not tr.has_assertion:
+                earlier.append(tr.rx)
+        except R.Unsupported:
+            pass
+    for i, (op, av) in enumerate(items):
+        outside = not (op is sc.SUBPATTERN and av[0] is not None)
+        dropped = (not outside) and not isinstance(args[av[0] - 1], _TokenType)
+        if not outside and not dropped:
+            continue
+        if dropped and args[av[0] - 1] is not None:
+            return "unknown", "bygroups argument that is itself a callback"
+        a, u, b = z3.String("a"), z3.String("u"), z3.String("b")
+        sol = z3.Solver()
+        sol.add(z3.InRe(a, R._concat(rxs[:i]) if i else z3.Re(z3.StringVal(""))), z3.InRe(u, rxs[i]), z3.Length(u) >= 1,
+                z3.InRe(b, R._concat(rxs[i + 1:]) if i + 1 < len(rxs) else z3.Re(z3.StringVal(""))),
+                x == z3.Concat(a, u, b))
+        if earlier:
+            sol.add(z3.Not(z3.InRe(x, z3.Concat(R._union(earlier), R.sigma_star()))))
+        r = check(sol)
+        if r == "sat":
+            w = sol.model().eval(x, model_completion=True).as_string()
+            return "loses", {"state": st, "pattern": pat.pattern, "part": i, "text": _unescape(w)}
+        if r != "unsat":
+            return "unknown", f"solver answered {r} for the part outside the groups"
+    return "exact", None
+
+
 def run(tier: str, seed: int, known: list[dict[str, Any]]) -> dict[str, Any]:
     t0 = time.time()
     res: dict[str, Any] = {"engine": "R", "id": "C17.R", "violations": [], "harness_errors": [], "inconclusive": [],
@@ -94,22 +155,51 @@ def run(tier: str, seed: int, known: list[dict[str, Any]]) -> dict[str, Any]:
         res["violations"].append({"ob": "C17.R", "replay": path, "message": f"{what}: {detail}"})
 
     # ---- R3 structural side conditions ------------------------------------------------------------------
+    # plain token actions emit the whole match. A `bygroups` action emits the texts of groups 1..n only: the solver
+    # decides, per part of the rule that lies outside those groups, whether it can match a non-empty text.
     obligations += 1
+    x = z3.String("x")
     struct_ok = not problems
+    lost: list[dict[str, Any]] = []
     for st in states:
-        for (m, action, new) in tokens[st]:
-            if not isinstance(action, _TokenType):
+        for ri, (m, action, new) in enumerate(tokens[st]):
+            if isinstance(action, _TokenType):
+                continue
+            pat = m.__self__
+            args = _bygroups_args(action)
+            if args is None:
                 struct_ok = False
-                problems.append(f"state {st}: rule {m.__self__.pattern!r} has a callback action (text could be dropped)")
+                problems.append(f"state {st}: rule {pat.pattern!r} has a callback action that is not bygroups (not modelled)")
+                continue
+            verdict_, why = _bygroups_exact(pat, args, st, tokens, check, x)
+            if verdict_ == "exact":
+                continue
+            struct_ok = False
+            if verdict_ == "loses":
+                lost.append(why)
+            else:
+                problems.append(f"state {st}: bygroups rule {pat.pattern!r}: {why}")
     if struct_ok:
         discharged += 1
     else:
-        # replayable: run the real lexer on a text and compare concatenation
-        bad = _find_loss(lx)
-        if bad is not None:
-            violation("token texts do not concatenate to the input", bad)
-        else:
-            res["inconclusive"].append({"ob": "C17.R3", "state": "unknown", "message": "; ".join(problems)})
+        reported = False
+        for w in lost:
+            full = _ENTER.get(w["state"], "") + w["text"]
+            done, got = _child(_concat_child, (full,))
+            if not done or got != full:
+                violation("token texts do not concatenate to the input", {"text": full, "concatenation": got, "rule": w["pattern"],
+                                                                          "outside_groups": w["part"]})
+                reported = True
+                break
+        if not reported:
+            # replayable fallback: run the real lexer on sample texts and compare the concatenation
+            bad = _find_loss(lx)
+            if bad is not None:
+                violation("token texts do not concatenate to the input", bad)
+            else:
+                res["inconclusive"].append({"ob": "C17.R3", "state": "unknown",
+                                            "message": "; ".join(problems + [f"solver witness {w['text']!r} for {w['pattern']!r} "
+                                                                             f"did not lose text for real" for w in lost])})
 
     # ---- translate ------------------------------------------------------------------------------------------
     trans: dict[str, list[tuple[Any, Any]]] = {}
@@ -234,18 +324,40 @@ def _unescape(s: str) -> str:
 _ENTER = {"root": "", "mdq_string": '"""', "msq_string": "'''", "dq_string": '"', "sq_string": "'", }
 
 
-def _real_error_token(lx: Any, state: str, text: str) -> str | None:
-    """replay: bring the real lexer into `state` and feed `text`; return the full text if an Error token appears"""
+def _child(fn: Any, args: tuple, limit: float = 10.0) -> tuple[bool, Any]:
+    """run fn(*args, q) in a child process; (finished, value). The seeded or broken table may make the real lexer loop."""
+    import multiprocessing as mp
+
+    q: Any = mp.Queue()
+    p = mp.Process(target=fn, args=args + (q,))
+    p.start()
+    try:
+        v = q.get(timeout=limit)
+        p.join(2)
+        return True, v
+    except Exception:
+        return False, None
+    finally:
+        if p.is_alive():
+            p.kill()
+            p.join()
+
+
+def _error_token_child(full: str, q: Any) -> None:
     from pygments.token import Error
 
+    lx, _ = _table()
+    q.put(any(tt is Error for _i, tt, _v in lx.get_tokens_unprocessed(full)))
+
+
+def _real_error_token(lx: Any, state: str, text: str) -> str | None:
+    """replay: bring the real lexer into `state` and feed `text`; return the full text if an Error token appears"""
     pre = _ENTER.get(state)
     if pre is None:
         return None
     full = pre + text
-    for _i, tt, _v in lx.get_tokens_unprocessed(full):
-        if tt is Error:
-            return full
-    return None
+    done, err = _child(_error_token_child, (full,))
+    return full if done and err else None
 
 
 def _lex_concat(text: str, q: Any) -> None:
@@ -272,25 +384,37 @@ def _real_hangs_or_loses(state: str, text: str) -> bool:
         return True
 
 
-def _find_loss(lx: Any) -> Any:
+def _find_loss_child(q: Any) -> None:
+    lx, _ = _table()
     for s_ in _samples():
         got = "".join(v for _i, _t, v in lx.get_tokens_unprocessed(s_))
         if got != s_:
-            return {"text": s_, "concatenation": got}
-    return None
+            q.put({"text": s_, "concatenation": got})
+            return
+    q.put(None)
+
+
+def _find_loss(lx: Any) -> Any:
+    done, v = _child(_find_loss_child, (), 60.0)
+    return v if done else None
+
+
+def _concat_child(text: str, q: Any) -> None:
+    lx, _ = _table()
+    q.put("".join(v for _i, _t, v in lx.get_tokens_unprocessed(text)))
 
 
 def replay(what: str, detail: Any) -> bool:
     """native replay of a recorded violation (returns False when it reproduces)"""
-    from pygments.token import Error
-
-    lx, _ = _table()
     if "hang_text" in detail:
         return not _real_hangs_or_loses("root", detail["hang_text"])
     if "full_text" in detail:
-        return not any(tt is Error for _i, tt, _v in lx.get_tokens_unprocessed(detail["full_text"]))
+        done, err = _child(_error_token_child, (detail["full_text"],))
+        return not (done and err)
     if "text" in detail:
-        return "".join(v for _i, _t, v in lx.get_tokens_unprocessed(detail["text"])) == detail["text"]
+        done, got = _child(_concat_child, (detail["text"],))
+        return done and got == detail["text"]
     if "pattern" in detail:
+        lx, _ = _table()
         return re.compile(detail["pattern"], lx.flags).match("") is None
     return True
